@@ -25,6 +25,8 @@ func (s siteInfo) String() string {
 
 // xl translates the functions of one type-checked package.
 type xl struct {
+	// mayNil: may-return-nil summaries of the functions in scope (maynil.go), by FullName
+	mayNil map[string]map[int]bool
 	// ctorMaps: map-typed struct fields that every composite literal of their struct in the
 	// package initialises with make / a map literal, that are never assigned anything else
 	// and whose struct is never created as a zero value in the package (see ctorMapFields)
@@ -55,6 +57,9 @@ type fn struct {
 	oks    map[*types.Var]okInfo
 	ranges []rangeCtx
 	bounds []boundCtx
+	// isNilable: tracked pointer / interface variables that receive a result of a function whose
+	// summary says "may be nil together with a nil error" (kinds nil / ptr, like isPtr)
+	isNilable map[*types.Var]bool
 	// isLen: tracked variables of slice / string type; their "kind" is the length class
 	// min(len, 7) (kind number k = length k for k <= 6, kind 7 = length >= 7)
 	isLen  map[*types.Var]bool
@@ -206,6 +211,8 @@ func (f *fn) collect(ftype *ast.FuncType, recv *ast.FieldList, body *ast.BlockSt
 	f.isPtr = map[*types.Var]bool{}
 	bad := map[*types.Var]bool{}
 	f.isLen = map[*types.Var]bool{}
+	f.isNilable = map[*types.Var]bool{}
+	var nilCands []*types.Var
 	var cands, lenCands []*types.Var
 	lenUsed := map[*types.Var]bool{} // appears as len(v)
 	add := func(id *ast.Ident) {
@@ -259,6 +266,21 @@ func (f *fn) collect(ftype *ast.FuncType, recv *ast.FieldList, body *ast.BlockSt
 						bad[v] = true
 					}
 				}
+			case *ast.AssignStmt:
+				// x, …, err := f(…) with f's summary "result k may be nil with a nil error"
+				if len(m.Rhs) == 1 {
+					if call, ok := ast.Unparen(m.Rhs[0]).(*ast.CallExpr); ok {
+						if g := calleeOf(f.l.Info, call); g != nil {
+							for k := range f.mayNil[g.FullName()] {
+								if k < len(m.Lhs) {
+									if v := f.varOf(m.Lhs[k]); v != nil && isNilableType(v.Type()) && !isTokenType(v.Type()) && !isStartPtr(v.Type()) {
+										nilCands = append(nilCands, v)
+									}
+								}
+							}
+						}
+					}
+				}
 			case *ast.CallExpr:
 				if id, ok := m.Fun.(*ast.Ident); ok && id.Name == "len" && len(m.Args) == 1 {
 					if _, isB := f.l.Info.Uses[id].(*types.Builtin); isB {
@@ -296,6 +318,21 @@ func (f *fn) collect(ftype *ast.FuncType, recv *ast.FieldList, body *ast.BlockSt
 		}
 		f.vars[v] = len(f.vars)
 		f.isPtr[v] = isStartPtr(v.Type())
+	}
+	for _, v := range nilCands {
+		if bad[v] {
+			continue
+		}
+		// only locals of this function (declared in it)
+		if v.Parent() == nil || v.Pkg() == nil || v.Parent() == v.Pkg().Scope() || v.IsField() {
+			continue
+		}
+		if _, dup := f.vars[v]; dup {
+			continue
+		}
+		f.vars[v] = len(f.vars)
+		f.isPtr[v] = true
+		f.isNilable[v] = true
 	}
 	for _, v := range lenCands {
 		if bad[v] || !lenUsed[v] {
@@ -399,6 +436,12 @@ func (f *fn) eff(e ast.Expr) *Stmt {
 		return f.eff(e.X)
 	case *ast.SelectorExpr:
 		if sel, ok := f.l.Info.Selections[e]; ok {
+			if xv := f.varOf(e.X); xv != nil && f.isNilable[xv] {
+				if f.allow.covers(f.name, "nilresult", f.str(e.X)) {
+					return skip()
+				}
+				return require(f.vars[xv], kPtr, f.newSite(e, "nilresult", f.str(e)))
+			}
 			if isStartPtr(f.typeOf(e.X)) {
 				_ = sel
 				return f.derefOf(e.X, e, "deref")
